@@ -432,6 +432,8 @@ def step (st : DState) (line : String) : DState × String :=
   | ["R", "scc", c] =>
     let r := Spec.sccRef (st.h.level c)
     (st, "ok " ++ if r.isEmpty then "-" else ";".intercalate (r.map cj))
+  | ["SPEC", "scc", c, comps] =>
+    (st, bit (Spec.sccValid (st.h.level c) (if comps == "-" then [] else (comps.splitOn ";").map lst)))
   | ["R", "doms", c] => (st, "ok " ++ showSetMap (Spec.domsRef (st.h.level c)))
   | ["R", "pdoms", c] => (st, "ok " ++ showSetMap (Spec.postDomsRef (st.h.level c)))
   | ["R", "imm", c] => (st, "ok " ++ showPairs (Spec.immRef (Spec.domsRef (st.h.level c))))
